@@ -474,9 +474,9 @@ GridSpec == <<
   <<"mi_proximal_point", << <<"alpha", {One, Two}>>, <<"n", Ns>> >> >>,
   <<"mi_accelerated_proximal_point", << <<"alpha", {One, Two}>>, <<"n", Ns>> >> >>,
   <<"mi_optimal_strongly_monotone_proximal_point", << <<"n", Ns>>, <<"mu", {Half, R(1, 4)}>> >> >>,
-  <<"mi_douglas_rachford_splitting", << <<"L", {One}>>, <<"mu", {R(1, 4), Half}>>, <<"alpha", {One, Half}>>, <<"theta", {One, Half}>> >> >>,
+  <<"mi_douglas_rachford_splitting", << <<"L", {One, Two}>>, <<"mu", {R(1, 4), Half}>>, <<"alpha", {One, Half}>>, <<"theta", {One, Half}>> >> >>,
   <<"mi_three_operator_splitting", << <<"L", {One}>>, <<"mu", {R(1, 4)}>>, <<"beta", {One}>>, <<"alpha", {One, Half}>>, <<"theta", {One}>> >> >>,
-  <<"mi_optimistic_gradient", << <<"n", Ns>>, <<"gamma", {R(1, 4)}>>, <<"L", {One}>> >> >>,
+  <<"mi_optimistic_gradient", << <<"n", Ns>>, <<"gamma", {R(1, 4)}>>, <<"L", {One, R(1, 2)}>> >> >>,
   <<"mi_past_extragradient", << <<"n", Ns>>, <<"gamma", {R(1, 4)}>>, <<"L", {One}>> >> >>,
   <<"nonconvex_gradient_descent", << <<"L", {One, Two}>>, <<"gamma", {Half, One}>>, <<"n", Ns>> >> >>,
   <<"gradient_descent_contraction", << <<"L", {One}>>, <<"mu", {R(1, 4)}>>, <<"gamma", {Half, One, R(3, 2)}>>, <<"n", Ns>> >> >>,
